@@ -55,6 +55,7 @@ func runC20(c *Ctx) {
 	c20PoolSend(c, "success-after-write")
 	c20WriteDeadlineOnly(c)
 	ruleTypedNil(c, "dial-errors")
+	ruleClockFreeAttempts(c, "bounded-attempts")
 }
 
 // c20WriteDeadlineOnly: a send path may bound its own write, and nothing else, on the connection it sends on. The TCP
